@@ -763,8 +763,10 @@ func compileAssignStmtLeft(context *funcContext, stmt *ast.AssignStmt) (int, []*
 			case ecLocal:
 				// only the last target may receive its value directly: every
 				// other right-hand side is evaluated after an earlier store
-				// would have clobbered a local it may still read
-				if i == len(stmt.Lhs)-1 {
+				// would have clobbered a local it may still read. Surplus
+				// right-hand sides are evaluated after the last target's one,
+				// so with them not even the last target may be stored early
+				if i == len(stmt.Lhs)-1 && len(stmt.Rhs) <= len(stmt.Lhs) {
 					ec.reg = context.FindLocalVar(st.Value)
 				}
 			}
